@@ -69,6 +69,9 @@ func (f *Adjoin) Call(s *slip.Scope, args slip.List, depth int) slip.Object {
 		keyFunc  slip.Caller
 		testFunc slip.Caller
 	)
+	if len(args)%2 != 0 {
+		slip.ErrorPanic(s, depth, "%s missing an argument", args[len(args)-1])
+	}
 	for pos := 2; pos < len(args)-1; pos += 2 {
 		sym, ok := args[pos].(slip.Symbol)
 		if !ok {
